@@ -501,7 +501,7 @@ func (ex *Exec) evalTypeAssert(p *Path, x *ast.TypeAssertExpr, multi bool) []Val
 		return []Value{{ite(ok, val.T, ex.c.Zero(t)), t}, {ok, types.Typ[types.Bool]}}
 	}
 	if ex.safety && !ex.inContract() {
-		ex.addObl(p, ex.funcKey+"#nopanic:assert@"+ex.w.pos(x.Pos()), "safety", "type assertion holds", ok, x.Pos(), "")
+		ex.addObl(p, ex.funcKey+"#nopanic:assert@"+ex.siteLabel(x.Pos()), "safety", "type assertion holds", ok, x.Pos(), "")
 	}
 	return []Value{val}
 }
@@ -620,7 +620,11 @@ func (ex *Exec) indexValue(p *Path, base, idx Value, multi bool, pos token.Pos) 
 		_, dom, val, _ := ex.c.mapParts(base.Ty)
 		k := ex.convert(p, idx, bt.Key(), pos)
 		present := "(select " + app(dom, base.T) + " " + k.T + ")"
-		v := Value{ite(present, "(select "+app(val, base.T)+" "+k.T+")", ex.c.Zero(bt.Elem())), bt.Elem()}
+		stored := Value{"(select " + app(val, base.T) + " " + k.T + ")", bt.Elem()}
+		if inv := ex.c.typeInvariant(stored); inv != "true" {
+			ex.assumeFact(p, implies(present, inv))
+		}
+		v := Value{ite(present, stored.T, ex.c.Zero(bt.Elem())), bt.Elem()}
 		if multi {
 			return []Value{v, {present, types.Typ[types.Bool]}}
 		}
@@ -646,8 +650,8 @@ func (ex *Exec) evalSlice(p *Path, x *ast.SliceExpr) Value {
 		if x.High != nil {
 			hi = ex.eval(p, x.High).T
 		}
-		if ex.safety {
-			ex.addObl(p, ex.funcKey+"#nopanic:slice@"+ex.w.pos(x.Pos()), "safety", "slice bounds in range",
+		if ex.safety && !ex.inContract() {
+			ex.addObl(p, ex.funcKey+"#nopanic:slice@"+ex.siteLabel(x.Pos()), "safety", "slice bounds in range",
 				"(and (<= 0 "+lo+") (<= "+lo+" "+hi+") (<= "+hi+" (str.len "+base.T+")))", x.Pos(), "")
 		}
 		return Value{"(str.substr " + base.T + " " + lo + " (- " + hi + " " + lo + "))", base.Ty}
@@ -658,8 +662,8 @@ func (ex *Exec) evalSlice(p *Path, x *ast.SliceExpr) Value {
 		if x.High != nil {
 			hi = ex.eval(p, x.High).T
 		}
-		if ex.safety {
-			ex.addObl(p, ex.funcKey+"#nopanic:slice@"+ex.w.pos(x.Pos()), "safety", "slice bounds in range",
+		if ex.safety && !ex.inContract() {
+			ex.addObl(p, ex.funcKey+"#nopanic:slice@"+ex.siteLabel(x.Pos()), "safety", "slice bounds in range",
 				"(and (<= 0 "+lo+") (<= "+lo+" "+hi+") (<= "+hi+" "+app(ln, base.T)+"))", x.Pos(), "")
 		}
 		if lo == "0" {
